@@ -11,3 +11,11 @@ def gen_ops(rng, tier, ctx=None):
     if tier != "quick":
         yield "mpz_pow_shape %s %x" % (hx(-(1 << 32)), (1 << 27) + 1)
         yield "mpz_pow_shape %s %x" % (hx(3 << 40), 107374183)       # odd part 3^e with 40 e > 2^32
+    # odd moduli in the REDC-n range whose upper half equals the lower half plus one (the modulus is then -1 modulo B^(n/2) + 1:
+    # the special-value flags of the wrap-around product x*m mod B^n - 1 inside mpn_redc_n)
+    for n in ([100, 128, 256] if tier == "quick" else [100, 101, 128, 150, 200, 255, 256]):
+        h = 32 * n
+        L = rng.getrandbits(h - 2) | 1
+        m = (L + 1) << h | L
+        for bexp in ((rng.getrandbits(64 * n - 5), 2), (rng.getrandbits(64 * n - 5), 3), (3, 0x10001), (m - 2, 5)):
+            yield "mpz_powm 0 %s %s %s" % (hx(bexp[0]), hx(bexp[1]), hx(m))
